@@ -135,3 +135,35 @@ class NextBits:
     def post_core(bits, first_block_time, last_block_time, result):
         span = int((last_block_time - first_block_time).total_seconds())
         return be(result) == spec.next_work(be(bits), span, 0x1D00FFFF)
+
+
+def _gen_next_bits(rng):
+    from datetime import datetime, timedelta, timezone
+    exp = rng.choice([0x1D, 0x1C, 0x18, 0x17, 0x1E, 0x1F, 0x20, 0x20, 0x20, 0x03, 0x04, 0x21, 0x22])
+    mant = rng.choice([0x00FFFF, 0x7FFFFF, 0x008000, 0x000001, 0x0B8C8B, rng.randrange(1, 0x800000)])
+    bits = bytes([exp]) + mant.to_bytes(3, "big")
+    two_weeks = 14 * 24 * 3600
+    span = rng.choice([two_weeks, two_weeks // 4, two_weeks // 4 - 1, two_weeks * 4, two_weeks * 4 + 1, 1, 0, -5, rng.randrange(1, two_weeks * 5)])
+    t0 = datetime.fromtimestamp(1_600_000_000, timezone.utc)
+    limit = rng.choice([b"\x1d\x00\xff\xff", b"\x1d\x00\xff\xff", b"\x20\x7f\xff\xff", b"\x1e\x03\x77\xae"])
+    return dict(bits=bits, first_block_time=t0, last_block_time=t0 + timedelta(seconds=span), pow_limit_bits=limit)
+
+
+def next_bits_run(bits, first_block_time, last_block_time, pow_limit_bits):
+    from btclib.block.proof_of_work import next_bits
+    return next_bits(bits, first_block_time, last_block_time, pow_limit_bits=pow_limit_bits)
+
+
+@contract("contracts.c_pow.next_bits_run", gen=_gen_next_bits, props="C17", n_quick=2000, n_thorough=40000,
+          rule="compact targets with exponents 3..0x22 (the 256-bit wrap of target x timespan included) x timespans at the quarter / four-times clamps, zero and negative x mainnet, regtest and signet limits")
+class NextBitsBounded:
+    """CalculateNextWorkRequired on arith_uint256: clamp the timespan, multiply modulo 2^256,
+    divide, clamp to the limit, re-encode; an overflowing compact target is refused"""
+
+    def raises_BTClibValueError(bits):
+        value, negative, overflow = spec.set_compact(be(bits))
+        return overflow
+
+    def post_core(bits, first_block_time, last_block_time, pow_limit_bits, result):
+        span = int((last_block_time - first_block_time).total_seconds())
+        return be(result) == spec.next_work(be(bits), span, be(pow_limit_bits))
